@@ -29,6 +29,19 @@ class Bad:
     """An element / argument for which the call of the worker function raises."""
 
 
+def bad_at(pat, i):
+    """Failure pattern syntax of the labels (field bad= of apply labels and of the cfg line):
+    "0" no call fails, "1" every call fails, "p0101..." the call of invocation index i fails iff
+    the i-th digit is 1 (indices beyond the pattern do not fail)."""
+    if pat == "0":
+        return False
+    if pat == "1":
+        return True
+    if pat[:1] != "p" or set(pat[1:]) - {"0", "1"}:
+        raise ValueError(f"bad pattern {pat!r}")
+    return i + 1 < len(pat) and pat[i + 1] == "1"
+
+
 def gname_to_str(g):
     if g[0] == "A":
         m, i = g[1:].split(".")
@@ -83,6 +96,7 @@ class PoolRun:
         self.draining = False
         self.n_req = 0
         self.calls = {}          # req -> number of calls of the worker function
+        self.badpat = {}         # req -> failure pattern of an apply() request (label syntax)
         self.empty_el = None     # identity of the empty map element the iterator just yielded
         self.gates = {}          # tid -> worker gate future
         self.fin = {}            # tid -> 'r' | 'x'
@@ -104,7 +118,8 @@ class PoolRun:
         psize = float("inf") if size == "inf" else int(size)
         self._mk_work()
         if cfg["kind"] == "simple":
-            args = (Bad(),) if cfg["bad"] == "1" else ("simple", cfg["w"])
+            bad_at(cfg["bad"], 0)     # syntax check
+            args = ("simple", cfg["w"])
             self.pool = poolmod.SimpleTaskPool(
                 self.work, args=args, kwargs=None,
                 end_callback=self._make_cb("e", cfg["ecb"]),
@@ -212,8 +227,14 @@ class PoolRun:
             if k is None:   # apply / start: the invocation index is the call count
                 if req is None:
                     req = run._cur_simple_req()
+                    pat = run.cfg["bad"]
+                else:
+                    pat = run.badpat.get(req, "0")
                 k = run.calls.get(req, 0)
                 run.calls[req] = k + 1
+                if bad_at(pat, k):
+                    # the call func(*args, **kwargs) of exactly this invocation raises
+                    raise TypeError(f"bad call {k}")
             return run._worker(req, k if ok else 999, w)
 
         inspect.markcoroutinefunction(work)
@@ -482,7 +503,9 @@ class PoolRun:
                 self._know(g)
             func = self.notcoro if kv["nonco"] == "1" else self.work
             req = self.n_req
-            args = (Bad(),) if kv["bad"] == "1" else ("apply", req, kv["w"])
+            bad_at(kv["bad"], 0)      # syntax check
+            self.badpat[req] = kv["bad"]
+            args = ("apply", req, kv["w"])
             self._spawn_result(self._call(
                 p.apply, func, args, None, int(kv["num"]), gname_to_str(g) if g else None,
                 self._make_cb("e", kv["ecb"]), self._make_cb("c", kv["ccb"])))
